@@ -90,6 +90,14 @@ def _sparksql_coalesce_expr(dbmodel, expression) -> str:
     )
 
 
+def _sparksql_float_divide_expr(dbmodel, expression):
+    # the generic form multiplies by 1.0, which is a DECIMAL(2,1) in Spark: the quotient (and the floor division built
+    # on it) came back as decimal.Decimal objects
+    e0 = dbmodel.expr_to_sql(expression.args[0], want_inline_parens=True)
+    e1 = dbmodel.expr_to_sql(expression.args[1], want_inline_parens=False)
+    return f"({e0} / CAST({e1} AS DOUBLE))"
+
+
 def _sparksql_db_mapv(dbmodel, expression):
     # https://spark.apache.org/docs/latest/sql-ref-syntax-qry-select-case.html
     if_expr = dbmodel.expr_to_sql(expression.args[0], want_inline_parens=True)
@@ -146,6 +154,7 @@ SparkSQL_formatters = {
     "is_nan": _sparksql_is_nan_expr,
     "is_bad": _sparksql_is_bad_expr,
     "coalesce": _sparksql_coalesce_expr,
+    "%/%": _sparksql_float_divide_expr,
     "mapv": _sparksql_db_mapv,
     "var": _spark_var_expr,
     "std": _spark_std_expr,
